@@ -1,6 +1,7 @@
 package checks
 
 import (
+	"errors"
 	"fmt"
 	"os"
 	"path/filepath"
@@ -180,7 +181,32 @@ func runC14Bubble(t *testing.T, tape *sim.Tape, tier string, o *Outcome, schedp 
 		redis.VerifYield = nil
 		defer func() { redis.VerifListen = nil }()
 		srv := redis.NewServer()
-		srv.SetCommandHandler(wl.NewRefStore())
+		// the application answers reads of some keys with prepared message objects (one per key for the whole run):
+		// the same object is then serialized by several connection goroutines at once
+		store := wl.NewRefStore()
+		var preparedMu sync.Mutex
+		var prepared map[string]*redis.Message
+		refreshPrepared := func() { // the application renews its prepared replies now and then (here: at every step)
+			preparedMu.Lock()
+			defer preparedMu.Unlock()
+			prepared = map[string]*redis.Message{
+				"shared:status": redis.NewStringMessage("state is : ready\r\n"), // the line break starts an 8-byte word (race detector granularity)
+				"shared:error":  redis.NewErrorMessage(errors.New("busy now\r\nretry later")),
+				"shared:bulk":   redis.NewBulkMessage("prepared value"),
+				"shared:int":    redis.NewIntegerMessage(42),
+			}
+		}
+		refreshPrepared()
+		store.Fault = func(conn *redis.Conn, method string, key string) (*redis.Message, error, bool) {
+			preparedMu.Lock()
+			m, ok := prepared[key]
+			preparedMu.Unlock()
+			if ok && method == "Get" {
+				return m, nil, true
+			}
+			return nil, nil, false
+		}
+		srv.SetCommandHandler(store)
 		srv.SetPort(plainPort)
 		withPw := tape.Draw(3, "password") == 0
 		if withPw {
@@ -217,6 +243,7 @@ func runC14Bubble(t *testing.T, tape *sim.Tape, tier string, o *Outcome, schedp 
 			{"SADD", "s", "m"}, {"ZADD", "z", "1", "m"}, {"ZRANGE", "z", "0", "-1"}, {"DEL", "k"}, {"KEYS", "*"}, {"SELECT", "1"}, {"AUTH", "pw"}, {"AUTH", "nope"},
 			{"CONFIG", "SET", "maxclients", "10"}, {"CONFIG", "GET", "maxclients"}, {"CONFIG", "SET", "requirepass", "pw"}, {"CONFIG", "GET", "port"}, {"CONFIG", "GET", "*"}, {"CONFIG", "GET", "tls-*"}, {"CONFIG", "GET", "requirepass", "max*"}, {"CONFIG", "SET", "port", fmt.Sprint(plainPort)},
 			{"MSET", "a", "1", "b", "2"}, {"APPEND", "k", "x"}, {"EXPIRE", "k", "10"}, {"QUIT"},
+			{"GET", "shared:status"}, {"GET", "shared:status"}, {"GET", "shared:error"}, {"GET", "shared:bulk"}, {"GET", "shared:int"},
 		}
 		if withTLS {
 			// file-based TLS settings written at run time (the files hold the certificates already in use)
@@ -226,6 +253,7 @@ func runC14Bubble(t *testing.T, tape *sim.Tape, tier string, o *Outcome, schedp 
 		}
 		lifeBusy := false
 		for s := 0; s < steps; s++ {
+			refreshPrepared()
 			batch := 2 + tape.Draw(maxBatch-1, "batch")
 			lifeThisStep := false
 			for b := 0; b < batch; b++ {
@@ -384,7 +412,7 @@ func init() {
 	register(&Check{
 		ID: "C14", Bubble: false, Run: runC14, NoShrink: false,
 		Runs:   map[string]int{"quick": 6000, "thorough": 150000},
-		Rule:   "a case is one run of 3..12 steps; each step releases a seed-chosen batch of 2..8 (thorough ..32) concurrent stimuli (dials, in a quarter of the runs also TLS clients with accepted/rejected/missing certificates doing a real handshake against the TLS port, commands of every family incl. CONFIG SET/GET (also of the TLS file settings and ports) and AUTH, close/reset/half-close, registry queries incl. Close on a returned connection, at most one Start/Stop/Restart, half of them after the application changed or removed the password) and then waits for quiescence; the harness and the repo are built with -race and a report counts when both access stacks contain a framework frame; distinct = distinct stimulus-batch sequences; non-trivial = the run contains a lifecycle call, registry query or disconnect",
+		Rule:   "a case is one run of 3..12 steps; each step releases a seed-chosen batch of 2..8 (thorough ..32) concurrent stimuli (dials, in a quarter of the runs also TLS clients with accepted/rejected/missing certificates doing a real handshake against the TLS port, commands of every family incl. reads of keys that the application answers with prepared message objects (status and error with CR LF in the text, bulk, integer; renewed at every step, shared by all connections), CONFIG SET/GET (also of the TLS file settings and ports) and AUTH, close/reset/half-close, registry queries incl. Close on a returned connection, at most one Start/Stop/Restart, half of them after the application changed or removed the password) and then waits for quiescence; the harness and the repo are built with -race and a report counts when both access stacks contain a framework frame; distinct = distinct stimulus-batch sequences; non-trivial = the run contains a lifecycle call, registry query or disconnect",
 		Real:   []string{"redis.Server (all of it) under the Go race detector", "reference store (internally locked)"},
 		Stub:   []string{"network: free-running simulated listener/connections with per-object locks only", "scheduler: seed decides stimuli and step boundaries; inside a step the Go runtime runs freely (the verdict is a happens-before property)"},
 		Assume: []string{"verdicts replay, traces do not: the replay criterion is that the same site pair is reported", "two lifecycle calls are never issued concurrently with each other"},
